@@ -25,6 +25,7 @@ use cameleon_device::u3v::sim::{self, Edit, Ev, Reply, TxPlan, World};
 
 mod strm;
 mod cam;
+mod c15;
 
 pub enum Tok {
     I(i128),
@@ -339,6 +340,7 @@ fn main() {
             "ctl" => run_ctl(&mut c),
             "strm" => strm::run(&mut c),
             "cam16" => cam::run(&mut c),
+            "c15h" => c15::run(&mut c),
             _ => vec![-99],
         }));
         let out = r.unwrap_or_else(|_| vec![-98]);
